@@ -669,15 +669,28 @@ func (g *world) freshNode(base string, chainLabels []int) (*cl.Node, error) {
 	}
 	for _, b := range g.tk.blocks {
 		if o, err := n.Process(b.Block); err != nil || o {
-			return nil, fmt.Errorf("trunk block %d refused: orphan=%v err=%v", b.Block.Height, o, err)
+			return nil, &refused{-int(b.Block.Height), fmt.Sprintf("orphan=%v err=%v", o, err)}
 		}
 	}
 	for _, l := range chainLabels {
 		if o, err := n.Process(g.blk(l).info.Block); err != nil || o {
-			return nil, fmt.Errorf("fresh node refused main-chain block %d: orphan=%v err=%v", l, o, err)
+			return nil, &refused{l, fmt.Sprintf("orphan=%v err=%v", o, err)}
 		}
 	}
 	return n, nil
+}
+
+// the main chain of the node with history is not acceptable to a fresh node: an oracle failure, not a harness error
+type refused struct {
+	label int
+	why   string
+}
+
+func (r *refused) Error() string {
+	if r.label < 0 {
+		return fmt.Sprintf("class=unexpected-error: the valid trunk block at height %d (empty blocks; block 15 spends the reward of height 5 exactly at maturity) is refused by a fresh node (%s)", -r.label, r.why)
+	}
+	return fmt.Sprintf("class=acceptance: block %d of the main chain of the node with history is refused by a fresh node fed only that chain (%s)", r.label, r.why)
 }
 
 func commonPrefix(a, b []int) int {
@@ -729,6 +742,12 @@ func runCase(w *cl.World, tk *trunkT, c *Case, base string) (*Result, error) {
 	}
 	labelNew()
 	main, err := g.freshNode(base, nil)
+	if rf, ok := err.(*refused); ok {
+		res.Fails = append(res.Fails, rf.Error())
+		res.Outs = g.tracked(lab)
+		res.Descr = g.describe(order, nil)
+		return res, nil
+	}
 	if err != nil {
 		return nil, err
 	}
@@ -740,6 +759,10 @@ func runCase(w *cl.World, tk *trunkT, c *Case, base string) (*Result, error) {
 	oracle := func(when string) error {
 		oracleRuns++
 		f, err := g.freshNode(base, cur)
+		if rf, ok := err.(*refused); ok {
+			res.Fails = append(res.Fails, rf.Error()+" "+when)
+			return nil
+		}
 		if err != nil {
 			return err
 		}
@@ -855,6 +878,12 @@ func runCase(w *cl.World, tk *trunkT, c *Case, base string) (*Result, error) {
 		}
 		accepted := len(cur) > 0 && cur[len(cur)-1] == tip
 		f, err := g.freshNode(base, before)
+		if rf, ok := err.(*refused); ok {
+			res.Fails = append(res.Fails, rf.Error()+" before the probe")
+			res.Outs = g.tracked(lab)
+			res.Descr = g.describe(order, probeOrder)
+			return res, nil
+		}
 		if err != nil {
 			return nil, err
 		}
@@ -1468,6 +1497,11 @@ func runC10(c *Ctx) error {
 		"Definition genesis : block := " + coqBlock(gm) + ".\n" +
 		"Definition trunk : list block := " + CoqList(tb) + ".\n"
 
+	type failRec struct {
+		what  string
+		descr interface{}
+	}
+	var knownFails []failRec
 	for _, cs := range cases {
 		r := res[cs.ID]
 		if r == nil {
@@ -1493,7 +1527,12 @@ func runC10(c *Ctx) error {
 			}
 		}
 		for _, f := range r.Fails {
-			c.Stats.Fail(f, descr)
+			// the evidence keeps the first 20 failures: witnesses of the recorded finding must not crowd out anything else
+			if strings.Contains(f, "class=vote-utxo-height-lost") {
+				knownFails = append(knownFails, failRec{f, descr})
+			} else {
+				c.Stats.Fail(f, descr)
+			}
 		}
 		if len(r.Fails) > 0 {
 			c.Stats.Count("cases-with-oracle-failures")
@@ -1529,6 +1568,13 @@ func runC10(c *Ctx) error {
 			c.Stats.Sample(descr)
 		}
 	}
+	for i, f := range knownFails {
+		if i >= 6 {
+			break
+		}
+		c.Stats.Fail(f.what, f.descr)
+	}
+	c.Stats.Extra["known_finding_witnesses"] = len(knownFails)
 	c.Cases.Shard = 40
 	return c.Cases.Write(c.Out, header, "cres", "cres_eqb")
 }
